@@ -102,7 +102,8 @@ def gen_scenario(R, size="small", max_items=3):
     # the reader asks for 1024 bytes at a time: deliver at most 1000 per chunk so that one delivery is one read
     chunks = [c[j:j + 1000] for c in chunks for j in range(0, len(c), 1000)]
     cred = lambda: R.choice([None, None, "", "user name", "p|w%+é"])
-    return {"kind": "data", "pool": R.choice([1, 1, 2, 3, 4]), "items": items, "requests": requests, "script": script,
+    slow = R.randrange(2, 12) if R.random() < 0.08 else None      # a write the slowly reading peer takes 2.5 s to accept
+    return {"kind": "data", "slow_write_at": slow, "pool": R.choice([1, 1, 2, 3, 4]), "items": items, "requests": requests, "script": script,
             "ext": ext, "chunks": chunks, "probe": R.random() < 0.5, "user": cred(), "password": cred(),
             "early": R.random() < 0.3}
 
@@ -127,9 +128,20 @@ def gen_event(R, items):
     return {"kind": R.choice(["eos", "cls"]), "item": it}
 
 
-def make_exc(name, msg):
+class _Detail:
+    """a non-text exception detail (a wrapped exception, an error object): only its str() is specified"""
+    def __init__(self, text):
+        self.text = text
+
+    def __str__(self):
+        return self.text
+
+
+def make_exc(name, msg, wrapped=False):
     from lightstreamer_adapter.interfaces.data import SubscribeError, FailureError
-    return {"SubscribeError": SubscribeError, "FailureError": FailureError, "RuntimeError": RuntimeError}[name](msg)
+    cls = {"SubscribeError": SubscribeError, "FailureError": FailureError, "RuntimeError": RuntimeError}[name]
+    # `raise SubscribeError(e)` with e an exception or any object is as legal as a text message: the reply carries str(error)
+    return cls((ValueError(msg) if len(msg) % 2 else _Detail(msg)) if wrapped else msg)
 
 
 # --------------------------------------------------------------------------------- running the real server
@@ -246,7 +258,7 @@ def run_real(scn, choose):
                 sched.park(("aend", m, item, out))
             sched.event("ae", m, item, out)
             if out in ("SubscribeError", "FailureError", "RuntimeError"):
-                raise make_exc(out, "%s failed for %s #%d" % (m, item, k))
+                raise make_exc(out, "%s failed for %s #%d" % (m, item, k), wrapped=(k % 3 == 1))
             if out == "raise":
                 raise make_exc("RuntimeError", "snapshot query failed")
             return {"T": True, "F": False, "N": None}.get(out)
@@ -271,6 +283,7 @@ def run_real(scn, choose):
                 return scn["io_handler"]
         srv.set_exception_handler(H())
     sock.fail_write_at = scn.get("fail_write_at")
+    sock.slow_write_at = scn.get("slow_write_at")
     srv.remote_user, srv.remote_password = scn.get("user"), scn.get("password")
     run.srv = srv
 
@@ -344,8 +357,9 @@ def run_real(scn, choose):
                 else:
                     cur["held"] = None
             ch["snap"] = snapshot()
+            # inside an adapter call that waits (the adapter's business), or inside a write the peer is slow to accept (time's)
             ch["blocked_after"] = [t.name for t in sched.threads.values()
-                                   if not t.done and t.op and t.op[0] == "aend" and t.cond is not None and not t.cond()]
+                                   if not t.done and t.op and t.op[0] in ("aend", "send-wait") and t.cond is not None and not t.cond()]
             # a library thread waiting for a lock whose owner sits inside an adapter call (C18: no lock may be held across one)
             for t in sched.threads.values():
                 lk = t.meta.get("want_lock")
@@ -426,6 +440,8 @@ def driver_lines(run):
                 skip = True
         elif kind == "after-start":
             skip = True           # the creator continues after Thread.start(): no model-relevant operation of its own
+        elif kind == "send-wait":
+            skip = True           # the peer is slow to accept the write: time passes, nothing else
         elif kind == "task-start":
             o = "start"
         elif kind == "lock":
@@ -682,6 +698,21 @@ def oracle_c02(run, A, V):
                 made = any(c["rid"] == rid and c["m"] == "usb" for c in A.calls)
                 if made != bool(p_ok):
                     V("unsubscribe-pairing", "USB %s: unsubscribe called=%s but preceding SUB %s succeeded=%s" % (rid, made, p, bool(p_ok)))
+        # "an unsubscription following a failed or skipped subscription is acknowledged without calling the adapter"
+        if run.status == "quiescent" and all(r in A.arrive for r in rids):
+            wire = [strip_ts(l) for l in "".join(A.sent).split("\r\n")]
+            for i, rid in enumerate(rids):
+                if A.req[rid]["method"] != "USB" or i == 0:
+                    continue
+                p = rids[i - 1]
+                ptk = A.task.get(p)
+                pcalls = [c for c in A.calls if c["rid"] == p and c["m"] == "sub"]
+                p_ok = ptk is not None and ptk["kind"] == "do" and pcalls and pcalls[0]["out"] == "ok"
+                if ptk is not None and not p_ok:
+                    reps = [l for l in wire if l.startswith("%s|USB|" % rid)]
+                    if reps != ["%s|USB|V" % rid]:
+                        V("unsubscribe-after-failure-not-acknowledged", "USB %s follows the failed / skipped subscription %s of %s; replies on the wire: %r "
+                          "(expected exactly %s|USB|V)" % (rid, p, item, reps, rid))
         # pairing at rest: an unsubscription request that arrived after a subscription the adapter accepted leads to the matching
         # unsubscribe call (it is not silently dropped, which would leave the adapter subscribed and let the next subscribe
         # follow a subscribe)
@@ -817,6 +848,12 @@ def oracle_c17(run, A, V):
 
 
 def oracle_c16(run, A, V):
+    if not run.scn.get("tail"):
+        # the connection is healthy throughout (a slow peer is not a failed one): nothing may be reported as an I/O failure,
+        # and the process must not exit — queued messages would never be written
+        bad = [(ch["tid"],) + tuple(e[:2]) for ch in run.chunks for e in ch["events"] if e[0] in ("iohandler", "exit", "send-timeout")]
+        if bad:
+            V("io-failure-on-healthy-connection", "the connection is up (the peer merely reads slowly) but the library gave up on it: %r" % bad[:3])
     for ch in run.chunks:
         for e in ch["events"]:
             if e[0] == "concurrent-send":
